@@ -31,7 +31,18 @@ FieldTable ==
     GG130       |-> FT(GG130, 17, 17),
     GG256       |-> FT(GG256, 32, 32),
     GG384       |-> FT(GG384, 48, 48),
-    GG512       |-> FT(GG512, 64, 64) ]
+    GG512       |-> FT(GG512, 64, 64),
+    GGC448      |-> FT(Q448, 56, 56),
+    GGP256      |-> FT(QP256, 32, 32),
+    GG25519     |-> FT(Q25519, 32, 32),
+    MI200       |-> FT(MI200, 25, 32),
+    MI208       |-> FT(MI208, 26, 32),
+    MI216       |-> FT(MI216, 27, 32),
+    MI224       |-> FT(MI224, 28, 32),
+    MI232       |-> FT(MI232, 29, 32),
+    MI240       |-> FT(MI240, 30, 32),
+    MI248       |-> FT(MI248, 31, 32),
+    MI241       |-> FT(MI241, 31, 32) ]
 
 \* documented correction range of the 128-bit fraction split (src/backend/mod.rs)
 SplitM(q) == IF Le(q, NMAX253) THEN 0 ELSE IF Le(q, NMAX255) THEN 1 ELSE 2
